@@ -418,7 +418,7 @@ Proof.
   destruct (N.eqb n (fam_max V6)); rewrite IH; reflexivity.
 Qed.
 
-(* as found: when the range end is the last address of its family, or the range runs from IPv4 to
+(* before a1ebdc8 (unguarded condition): when the range end is the last address of its family, or the range runs from IPv4 to
    IPv6, the loop condition never becomes false *)
 Lemma range_loop_step g k x hi :
   range_loop g (S k) x hi =
